@@ -71,6 +71,11 @@ func decodeDataSegment(r *bytes.Reader, enabledFeatures api.CoreFeatures, ret *w
 		return
 	}
 
+	if uint64(vs) > uint64(r.Len()) {
+		err = fmt.Errorf("read bytes for init: %v", shortRead(r))
+		return
+	}
+
 	ret.Init = make([]byte, vs)
 	if _, err = io.ReadFull(r, ret.Init); err != nil {
 		err = fmt.Errorf("read bytes for init: %v", err)
